@@ -12,7 +12,9 @@ def model_from_storage(s):
         for t in it:
             recs = []
             for r in t:
-                recs.append(MRec(r.oid, r.data, None if r.data is not None else 0, getattr(r, 'data_txn', None)))
+                dt = getattr(r, 'data_txn', None)
+                # a back-pointer record holds no bytes of its own: history() reports size 0 for it
+                recs.append(MRec(r.oid, r.data, None if (r.data is not None and dt is None) else 0, dt))
             ext = t.extension if hasattr(t, 'extension') else {}
             m.add(MTxn(t.tid, recs, t.user, t.description, ext, status=t.status))
     finally:
